@@ -14,7 +14,8 @@ What is proved here (about the model, for all inputs):
   * `freeze_value` (automata/base/utils.py, as of /repo fixes 3900daf: tuples are entered, and
     0014d04 / finding F37: set-like and mapping-like objects that are not builtin sets / dicts —
     dict views, mappingproxy, UserDict, ChainMap, user `collections.abc` containers — are
-    converted too) on a model of Python values `PyVal`: the result contains no mutable container
+    converted too, and ab97679: so are sequence-like objects that are not lists / tuples —
+    UserList, deque) on a model of Python values `PyVal`: the result contains no mutable container
     and no live view of one (`C18_freeze_immutable`; `C18_freeze_lookalike_regression` states
     what the function before 0014d04 violated) for every value
     Python can build (`supported`: dictionary keys and set / frozenset elements are hashable —
@@ -44,7 +45,7 @@ open AV AV.VA AV.VA.PyVal AV.VA.Obj
 
 /-- After freezing no `dict`, `set` or `list` object — and no set-like / mapping-like object that
 is not a builtin container (`setlike`: dict views, user `collections.abc.Set` classes; `maplike`:
-mappingproxy, UserDict, ChainMap, user `Mapping` classes) — is left anywhere inside the value (keys,
+mappingproxy, UserDict, ChainMap, user `Mapping` classes; `seqlike`: UserList, deque) — is left anywhere inside the value (keys,
 tuple members and frozenset members included).  `supported` is no restriction on real inputs:
 it says that every dictionary key and every set / frozenset element is hashable (on the model:
 `isFrozen` — an unhashable `dict` / `set` / `list` nowhere inside it), which Python enforces when
@@ -53,7 +54,8 @@ raise `TypeError: unhashable type`).  Lists, tuples, dict / frozendict values ma
 and nest arbitrarily — in particular a list inside a tuple (the MNTM result
 `('q1', [['1', 'R']])`, the DPDA result `('q1', ['1', '0'])`) is covered since fix 3900daf.
 What the model does not see: a user-defined hashable object with mutable content that is neither
-a `collections.abc.Set` nor a `collections.abc.Mapping` (`other` stands for immutable atoms only). -/
+a `collections.abc.Set`, a `collections.abc.Mapping` nor a `collections.abc.Sequence` (`other` stands
+for immutable atoms only). -/
 theorem C18_freeze_immutable (v : PyVal) (h : v.supported = true) : (freeze v).isFrozen = true :=
   isFrozen_freeze v h
 
@@ -106,14 +108,15 @@ example : (PyVal.set [.list [.int 1]]).supported = false ∧
     (PyVal.dict [(.tuple [.int 1, .list [.int 2]], .int 3)]).supported = false := ⟨rfl, rfl, rfl, rfl⟩
 
 /-- The regenerated shape of `freeze_value`: which `isinstance` branches exist, in which order,
-and that the dict / set / list-or-tuple / Mapping / non-frozenset Set branches recurse (the model
+and that the dict / set / list-or-tuple / Mapping / non-frozenset Set / non-bytes Sequence branches recurse (the model
 `PyVal.freeze` mirrors exactly this; the abstract base classes are named by what the module
 imports them from, not by their local alias). -/
 theorem C18_freeze_source_shape :
     Gen.Validate.freezeBranches =
       [("str,int", "same"), ("dict", "frozendict+rec"), ("set", "frozenset+rec"),
        ("list,tuple", "tuple+rec"), ("collections.abc.Mapping", "frozendict+rec"),
-       ("collections.abc.Set&!frozenset", "frozenset+rec")] := by
+       ("collections.abc.Set&!frozenset", "frozenset+rec"),
+       ("collections.abc.Sequence&!bytes", "tuple+rec")] := by
   decide
 
 /-- Non-vacuity: an MNTM-style transition table written with nested lists
@@ -145,8 +148,9 @@ example :
 /-! ### look-alike containers (finding F37, /repo fix 0014d04)
 
 `freezeOld` is `freeze_value` as it was before the repair: the same function without the last two
-`isinstance` tests, so a set-like / mapping-like object that is not a builtin container falls
-through to `return value` — stored BY REFERENCE — at the top level and at every nesting level
+`isinstance` tests (three as of fix ab97679, which added the `Sequence` test the same way), so a
+set-like / mapping-like / sequence-like object that is not a builtin container falls through to
+`return value` — stored BY REFERENCE — at the top level and at every nesting level
 the recursion reaches. -/
 
 mutual
@@ -163,6 +167,7 @@ def freezeOld : PyVal → PyVal
   | .other t => .other t
   | .setlike xs => .setlike xs                          -- `return value`
   | .maplike kvs => .maplike kvs                        -- `return value`
+  | .seqlike xs => .seqlike xs                          -- `return value` (until fix ab97679)
 def freezeOldList : List PyVal → List PyVal
   | [] => []
   | x :: xs => freezeOld x :: freezeOldList xs
@@ -206,6 +211,7 @@ def reachesNoLookalike : PyVal → Bool
   | .tuple xs => reachesNoLookalikeList xs
   | .setlike _ => false
   | .maplike _ => false
+  | .seqlike _ => false
 def reachesNoLookalikeList : List PyVal → Bool
   | [] => true
   | x :: xs => reachesNoLookalike x && reachesNoLookalikeList xs
@@ -234,6 +240,7 @@ theorem C18_freezeOld_eq_freeze : ∀ v : PyVal, reachesNoLookalike v = true →
       simp only [reachesNoLookalike] at h; simp only [freezeOld, freeze, freezeOldList_eq xs h]
   | .setlike _, h => by simp [reachesNoLookalike] at h
   | .maplike _, h => by simp [reachesNoLookalike] at h
+  | .seqlike _, h => by simp [reachesNoLookalike] at h
 theorem freezeOldList_eq : ∀ xs : List PyVal, reachesNoLookalikeList xs = true →
     freezeOldList xs = freezeList xs
   | [], _ => rfl
@@ -264,10 +271,14 @@ example :
       (freeze (.dict [(.int 0, exKeysView)])).isFrozen = true ∧
     (freezeOld (.list [exProxyTable])).isFrozen = false ∧
       (freeze (.list [exProxyTable])).isFrozen = true ∧
+    -- a `collections.UserList` of MNTM results (fix ab97679): kept by the old function, a tuple now
+    (freezeOld (.dict [(.tuple [.str "1"], .seqlike [.tuple [.str "q1", .list [.list [.str "1", .str "R"]]]])])).isFrozen = false ∧
+      freeze (.dict [(.tuple [.str "1"], .seqlike [.tuple [.str "q1", .list [.list [.str "1", .str "R"]]]])]) =
+        .frozendict [(.tuple [.str "1"], .tuple [.tuple [.str "q1", .tuple [.tuple [.str "1", .str "R"]]]])] ∧
     -- an items view whose members are unhashable tuples: `{1: [2]}.items()`
     (PyVal.setlike [.tuple [.int 1, .list [.int 2]]]).supported = true ∧
       freeze (.setlike [.tuple [.int 1, .list [.int 2]]]) = .frozenset [.tuple [.int 1, .tuple [.int 2]]] :=
-  ⟨rfl, rfl, rfl, rfl, rfl, rfl, rfl, rfl, rfl, rfl, rfl, rfl, rfl, rfl, rfl, rfl⟩
+  ⟨rfl, rfl, rfl, rfl, rfl, rfl, rfl, rfl, rfl, rfl, rfl, rfl, rfl, rfl, rfl, rfl, rfl, rfl⟩
 
 /-- What the constructor stored before the repair: in the default configuration the attribute
 `final_states` of finding F37 was the caller's view itself. -/
